@@ -282,6 +282,19 @@ package core
 //@ lemma! jdn_next_year(y int): 0 <= y && y < 3000 ==> jdn(y + 1, 1, 1) == jdn(y, 12, 31) + 1
 
 // ---- milliseconds --------------------------------------------------------------------------------
+// MinusMs: on the same day the difference of the times of day; otherwise the difference of the exact Unix
+// millisecond counts (unixMs names what UnixMilli returns - Go's time package, assumed - so that the contract
+// says the difference is NOT taken through a saturating or rounding intermediate such as time.Duration)
+//@ spec unixMs(d SuDate) int
+//@ spec timeMs(d SuDate) int = dMs(d) + 1000 * (dSecond(d) + 60 * (dMinute(d) + 60 * dHour(d)))
+//@ func (d SuDate) UnixMilli() (r)
+//@   assumed
+//@   pure
+//@   defines r == unixMs(d)
+//@ func (d SuDate) MinusMs(other) (r)
+//@   requires validDate(d) && validDate(other) && -10000000000000000 <= unixMs(d) && unixMs(d) <= 10000000000000000 && -10000000000000000 <= unixMs(other) && unixMs(other) <= 10000000000000000
+//@   ensures! same_day: d.date == other.date ==> r == timeMs(d) - timeMs(other)
+//@   ensures! other_day: d.date != other.date ==> r == unixMs(d) - unixMs(other)
 // Plus delegates to Go's time package (assumed): adding a positive number of milliseconds gives a later valid date
 //@ func (d SuDate) Plus(yr, mon, day, hr, min, sec, ms) (r)
 //@   assumed
